@@ -220,7 +220,8 @@ storage_properties_set_dimension(struct StorageProperties* out,
 
     EXPECT(name, "Dimension name cannot be null.");
     EXPECT(bytes_of_name > 0, "Bytes of name must be positive.");
-    EXPECT(strlen(name) > 0, "Dimension name cannot be empty.");
+    // `name` is a counted buffer that need not be terminated: don't strlen it
+    EXPECT(name[0] != '\0', "Dimension name cannot be empty.");
     EXPECT(kind < DimensionTypeCount,
            "Invalid dimension type: %s.",
            dimension_type_as_string(kind));
